@@ -117,6 +117,8 @@ impl FeoxStore {
             }
             source = source.value_source().ok_or(FeoxError::StaleExtent)?;
         }
+        #[cfg(feature = "verif")]
+        crate::verif::sched("read.before_pin", 0, 0);
         let extent = source.acquire_extent().ok_or(FeoxError::StaleExtent)?;
         let sector = source.sector.load(Ordering::Acquire);
         if self.memory_only || sector == 0 {
